@@ -13,7 +13,7 @@
                                            any other harmless ones -- leaves the whole placement result unchanged.
    ENGINE (Model/Engine.v), for every algorithm that is AbsBlind (interface hypothesis, validated on the implementation by the
    metamorphic oracle `vh c06 oracle`; refuted for the grid algorithm exactly on the known class):
-     C06_abs_blind_engine (+ _layouts)     two trees that coincide up to oeq/leq (= up to content size / order) outside the
+     C06_abs_blind_engine_partial (+ _layouts_partial)   two trees that coincide up to oeq/leq (= up to content size / order) outside the
                                            subtrees of out-of-flow nodes stay so through any evaluation; every node that is
                                            not itself out of flow returns oeq outputs and keeps leq stored layouts.
    BLOCK in-flow kernel (Model/Block.v `block_inflow` = perform_final_layout_on_in_flow_children, tied by C10's K1/K2; any `Num`
@@ -38,7 +38,7 @@
    outputs as ANSWERS, the absolute pass as arbitrary traffic addressed to the absolute item's own node, the hidden pass):
      C06_block_algorithm_abs_blind         AbsBlind HOLDS for it (ab = box-generating and position:absolute; oeq / leq = equal
                                            up to content_size): no longer a premise for block containers
-     C06_block_engine_instance             hence the conclusion of C06_abs_blind_engine for every engine whose nodes are block
+     C06_block_engine_instance_partial     hence the conclusion of C06_abs_blind_engine_partial for every engine whose nodes are block
                                            containers or leaves
      C06_block_resumption_runs_kernel      the in-flow part of the resumption, answered by any function, hands on exactly the
                                            state and records of Model/Block.v `inflow_loop` (what C10's K2 runs)
@@ -235,9 +235,18 @@ Theorem C06_block_content_width_ignores_absolute :
     content_based_width items aw.
 Proof. intros T N items aw. apply content_based_width_delete. Qed.
 
+(* PARTIAL (renamed in the audit, wave 5c).  What `asim` leaves unconstrained, and the property text does not:
+   (1) the subtree of ANY out-of-flow node -- asim relates two out-of-flow nodes whatever their caches, layouts and children.  So
+       an UNCHANGED position:absolute sibling (or cousin) of the edited absolute child, and everything below it, is not covered,
+       although the text says "its in-flow or out-of-flow siblings ... any node outside its own subtree";
+   (2) content_size is ignored on EVERY node (oeq / leq drop it); the text allows only the container's (ancestors') content size
+       to depend on the absolute child.
+   Both are checked bit for bit on the implementation by `vh c06 oracle`, which is therefore stronger than this theorem.
+   A sharper statement needs the mask "positions where the two style lists differ" instead of "all out-of-flow positions" and a
+   relational locality hypothesis on the absolute-item routine. *)
 (* ---------------------------------------------------------------------------------------------- engine *)
 
-Theorem C06_abs_blind_engine :
+Theorem C06_abs_blind_engine_partial :
   forall (S In Out Lay : Type) (mode : In -> RunMode) (in_eqb : In -> In -> bool) (is_none : S -> bool)
          (hidden_out : Out) (zero_lay : Lay) (algo : S -> list S -> In -> Alg In Out Lay)
          (ab : S -> bool) (oeq : Out -> Out -> Prop) (leq : Lay -> Lay -> Prop),
@@ -256,7 +265,7 @@ Qed.
 (* asim read pointwise: along a path without out-of-flow nodes (end included) both trees have a node, same style, leq layouts;
    and a tree is related to itself, so the relation can be started from a pair of fresh trees that differ only below
    out-of-flow nodes *)
-Theorem C06_abs_blind_layouts :
+Theorem C06_abs_blind_layouts_partial :
   forall (S In Out Lay : Type) (ab : S -> bool) (oeq : Out -> Out -> Prop) (leq : Lay -> Lay -> Prop)
          (t t' : tree S In Out Lay) p u,
     asim S In Out Lay ab oeq leq t t' -> in_flow_path S In Out Lay ab t p -> subtree S In Out Lay t p = Some u ->
@@ -288,7 +297,7 @@ Proof. intros T N pre abs_child Hloc. apply block_alg_abs_blind. exact Hloc. Qed
 (* engines made of block containers (sel s = true) and leaves: two trees that coincide up to content_size outside the
    subtrees of box-generating absolute nodes stay so through any pair of evaluations, and every node that is not itself such
    a node returns the same output up to content_size *)
-Theorem C06_block_engine_instance :
+Theorem C06_block_engine_instance_partial :
   forall (T : Type) (N : Num T) (pre : BStyle T -> BIn T -> BIn T) (abs_child : @AbsChild T)
          (sel : BStyle T -> bool) (leaf : BStyle T -> BIn T -> ChildOut T)
          (mode : BIn T -> RunMode) (in_eqb : BIn T -> BIn T -> bool) (is_none : BStyle T -> bool)
@@ -304,7 +313,7 @@ Theorem C06_block_engine_instance :
       (bs_visible_absolute (style_of (BStyle T) (BIn T) (ChildOut T) (BLayout T) t) = false -> out_eq o o').
 Proof.
   intros T N pre abs_child sel leaf mode in_eqb is_none hidden_out zero_lay Hloc algo f f' t t' i o t1 o' t1' Hs E E'.
-  eapply (C06_abs_blind_engine (BStyle T) (BIn T) (ChildOut T) (BLayout T) mode in_eqb is_none hidden_out zero_lay algo
+  eapply (C06_abs_blind_engine_partial (BStyle T) (BIn T) (ChildOut T) (BLayout T) mode in_eqb is_none hidden_out zero_lay algo
             bs_visible_absolute out_eq lay_eq); eauto.
   - apply out_eq_refl.
   - apply lay_eq_refl.
@@ -334,6 +343,201 @@ Theorem C06_block_resumption_query_inputs :
     bi_parent (child_input P it) = mkSize (Some (p_outer_width P)) None /\ bi_mode (child_input P it) = PerformLayout.
 Proof. intros T N P st it co A. apply child_input_is_recorded. exact A. Qed.
 
+(* =====================================================================================================================
+   Computed instances of the premises (audit, wave 5c): runs that return Ok / Some on inputs where the absolute children
+   are non-trivial and really differ between the two sides. *)
+
+(* C06_grid_never_placed / C06_grid_known_class: two in-flow, one hidden, two absolute children with harmless but
+   different placements; the run succeeds, places children 0 and 2, and is the same for the three lists *)
+Definition g_abs1 : child := mkChild (mkLn (Line 1) (Line 3)) (mkLn (Line (-2)) (Span 1)).
+Definition g_abs2 : child := mkChild (mkLn Auto (Span 2)) (mkLn (Span 3) Auto).
+Definition g_children : list (child_kind * child) :=
+  [(InFlow, mkChild (mkLn (Line 2) Auto) (mkLn (Line 2) (Span 2))); (Absolute, g_abs1); (InFlow, auto_child);
+   (Hidden, mkChild (mkLn (Line 5) Auto) (mkLn Auto Auto)); (Absolute, g_abs2)].
+Definition g_children' : list (child_kind * child) :=
+  [(InFlow, mkChild (mkLn (Line 2) Auto) (mkLn (Line 2) (Span 2))); (Absolute, g_abs2); (InFlow, auto_child);
+   (Hidden, mkChild (mkLn (Line 5) Auto) (mkLn Auto Auto)); (Absolute, auto_child)].
+Example C06_grid_example :
+  Forall2 (same_but Absolute (fun c c' => harmless 3 2 c /\ harmless 3 2 c')) g_children g_children' /\
+  Forall2 (same_but Absolute (fun _ _ => True)) g_children g_children' /\
+  Forall (fun kc => fst kc = Absolute -> harmless 3 2 (snd kc)) g_children /\
+  g_children <> g_children' /\ map (neutralise Absolute) g_children <> g_children /\
+  exists o, grid_placement_run 3 2 FRow g_children = Ok o /\ grid_placement_run 3 2 FRow g_children' = Ok o /\
+            grid_placement_run 3 2 FRow (map (neutralise Absolute) g_children) = Ok o /\
+            map p_index (o_items o) = [0; 2]%Z /\ o_cols o = mkTC 0 3 0 /\ o_rows o = mkTC 0 2 0 /\
+            map fst (in_flow_children g_children) = [0; 2]%Z.
+Proof.
+  destruct harmless_examples as (H1 & H2 & _).
+  assert (H0 : harmless 3 2 auto_child) by (apply auto_child_harmless; lia).
+  assert (SB : forall (R : child -> child -> Prop) k c c', (k = Absolute -> R c c') -> (k <> Absolute -> c = c') -> same_but Absolute R (k, c) (k, c'))
+    by (intros R k c c' A B; split; [reflexivity|split; assumption]).
+  split.
+  { unfold g_children, g_children'. repeat (constructor; [apply SB; [try discriminate; intros _; split; assumption|try reflexivity; intros N; exfalso; apply N; reflexivity]|]). constructor. }
+  split.
+  { unfold g_children, g_children'. repeat (constructor; [apply SB; [intros _; exact I|try reflexivity; intros N; exfalso; apply N; reflexivity]|]). constructor. }
+  split.
+  { unfold g_children. repeat (constructor; [cbn; try discriminate; intros _; assumption|]). constructor. }
+  split; [discriminate|]. split; [vm_compute; discriminate|].
+  eexists. split; [vm_compute; reflexivity|]. split; [vm_compute; reflexivity|]. split; [vm_compute; reflexivity|].
+  vm_compute. repeat split; reflexivity.
+Qed.
+
+(* C06_flex_items_ignore_absolute / C06_grid_items_ignore_absolute / C06_block_items_absolute_flagged on five children *)
+Definition IS : Type := (GPosition * GBoxGenerationMode * nat)%type.
+Definition i_pos (s : IS) := fst (fst s).
+Definition i_bgm (s : IS) := snd (fst s).
+Definition i_cs : list nat := [0; 1; 2; 3; 4]%nat.
+Definition i_f (c : nat) : IS :=
+  match c with
+  | 0 => (Position_Relative, BoxGenerationMode_Normal, 10) | 1 => (Position_Absolute, BoxGenerationMode_Normal, 20)
+  | 2 => (Position_Relative, BoxGenerationMode_None, 30) | 3 => (Position_Absolute, BoxGenerationMode_None, 40)
+  | _ => (Position_Relative, BoxGenerationMode_Normal, 50) end%nat.
+Definition i_f' (c : nat) : IS :=
+  match c with 1 => (Position_Absolute, BoxGenerationMode_Normal, 21) | 3 => (Position_Absolute, BoxGenerationMode_Normal, 41) | _ => i_f c end%nat.
+Definition i_f'' (c : nat) : IS := match c with 1 => (Position_Absolute, BoxGenerationMode_Normal, 21) | _ => i_f c end%nat.
+Example C06_items_example :
+  agree_except (s_absolute i_pos) i_f i_f' i_cs /\ agree_except (s_visible_absolute i_pos i_bgm) i_f i_f'' i_cs /\
+  flex_generate_items i_f i_pos i_bgm (fun i c s => (i, c, snd s)) i_cs = [(0, 0, 10); (4, 4, 50)]%nat /\
+  flex_generate_items i_f' i_pos i_bgm (fun i c s => (i, c, snd s)) i_cs = [(0, 0, 10); (4, 4, 50)]%nat /\
+  map fst (grid_in_flow_children i_f i_pos i_bgm i_cs) = [(0, 0); (4, 4)]%nat /\
+  block_generate_items i_f i_pos i_bgm (fun o c s => (o, c, snd s)) i_cs = [(0, 0, 10); (1, 1, 20); (2, 4, 50)]%nat /\
+  block_generate_items i_f'' i_pos i_bgm (fun o c s => (o, c, snd s)) i_cs = [(0, 0, 10); (1, 1, 21); (2, 4, 50)]%nat.
+Proof.
+  split; [|split].
+  - unfold agree_except, i_cs. repeat (constructor; [cbn; first [left; reflexivity|right; split; reflexivity]|]). constructor.
+  - unfold agree_except, i_cs. repeat (constructor; [cbn; first [left; reflexivity|right; split; reflexivity]|]). constructor.
+  - vm_compute. repeat split; reflexivity.
+Qed.
+
+(* C06_abs_blind_layouts_partial and the engine theorem on NON-fresh trees: after a first pass both trees are asim, differ from the
+   initial ones, the in-flow node at [2] has the same stored layout in both, the node at [1] is out of flow; a further
+   ComputeSize evaluation of both succeeds with oeq outputs whose content parts differ *)
+Example C06_abs_blind_layouts_example :
+  exists o t o' t', a_memo 6 a_left (PerformLayout, 3%N) = Some (o, t) /\ a_memo 6 a_right (PerformLayout, 3%N) = Some (o', t') /\
+    asim AS TIn AOut ALay a_ab a_oeq a_leq t t' /\ t <> a_left /\
+    in_flow_path AS TIn AOut ALay a_ab t [2%nat] /\ ~ in_flow_path AS TIn AOut ALay a_ab t [1%nat] /\
+    (exists u u', subtree AS TIn AOut ALay t [2%nat] = Some u /\ subtree AS TIn AOut ALay t' [2%nat] = Some u' /\
+                  lay_of _ _ _ _ u = (11%N, 0%N) /\ a_leq (lay_of _ _ _ _ u) (lay_of _ _ _ _ u')) /\
+    exists o2 t2 o2' t2', a_memo 6 t (ComputeSize, 4%N) = Some (o2, t2) /\ a_memo 6 t' (ComputeSize, 4%N) = Some (o2', t2') /\
+      a_oeq o2 o2' /\ fst o2 = 31%N /\ snd o2 <> snd o2'.
+Proof.
+  destruct (a_memo 6 a_left (PerformLayout, 3%N)) as [[o t]|] eqn:E; [|vm_compute in E; discriminate].
+  destruct (a_memo 6 a_right (PerformLayout, 3%N)) as [[o' t']|] eqn:E'; [|vm_compute in E'; discriminate].
+  exists o, t, o', t'. split; [reflexivity|]. split; [reflexivity|].
+  destruct (memo_asim AS TIn AOut ALay t_mode t_in_eqb (fun _ => false) (0%N, 0%N) (0%N, 0%N) a_algo a_ab a_oeq a_leq
+              (fun _ => eq_refl) (fun _ => eq_refl) a_algo_blind 6 6 a_left a_right (PerformLayout, 3%N) o t o' t'
+              a_trees_related E E') as [Ht _].
+  split; [exact Ht|].
+  vm_compute in E. vm_compute in E'. injection E as <- <-. injection E' as <- <-.
+  split; [vm_compute; discriminate|]. split; [vm_compute; repeat split|]. split; [vm_compute; intros [_ [A _]]; discriminate|].
+  split; [eexists; eexists; split; [vm_compute; reflexivity|split; [vm_compute; reflexivity|split; vm_compute; reflexivity]]|].
+  do 4 eexists. split; [vm_compute; reflexivity|]. split; [vm_compute; reflexivity|]. vm_compute. repeat split; try reflexivity. discriminate.
+Qed.
+
+From Coq Require Import QArith.
+From TV Require Import Num.QNum.
+From TV Require Model.Scale.
+From TV Require Import Model.EngineRel Model.BlockEngine Model.BlockEngineExample Proofs.BlockEngineBlind.
+
+(* the same for the dispatcher the block engine of Model/BlockEngine.v really uses (`bl_algo`: "has children" decides, nodes
+   carry their measure function): AbsBlind holds of it for every local absolute-item routine, so C06_abs_blind_engine_partial
+   applies to bl_memo (Proofs/BlockEngineBlind.v, audit wave 5c) *)
+Theorem C06_bl_algorithm_abs_blind :
+  forall (T : Type) (N : Num T) (pre : BStyle T -> BIn T -> BIn T) (abs_child : @AbsChild T),
+    AbsChildLocal abs_child ->
+    AbsBlind (BNode T) (BIn T) (ChildOut T) (BLayout T) (bl_algo pre abs_child) bn_visible_absolute out_eq lay_eq.
+Proof. exact bl_algo_abs_blind. Qed.
+
+(* C06_block_inflow_abs_blind / _delete_absolute, concrete over XQ: a container 212 wide with an in-flow child, an absolute
+   child and another in-flow child; on the other side the absolute child has another style and another output and the first
+   child reports another content size: xrel holds, the lists differ, the in-flow records and the height (52) coincide, the
+   content sizes differ *)
+Definition kR : BStyle XQ := fst (sstyle _ ex_spec).
+Definition kA : BStyle XQ := fst (sstyle _ ex_A).
+Definition kE : BStyle XQ := fst (sstyle _ ex_E).
+Definition kF : BStyle XQ := fst (sstyle _ ex_F).
+Definition kE2 : BStyle XQ := ex_style DBlock true PAbsolute (mkSize (len 33) (len 44)) auto2 auto2 2 1 9.
+Definition k_inp : BInput XQ := mkInput (mkSize (Some (qz 212)) None) (mkSize (Some (qz 300)) (Some (qz 400))) (mkLine false false).
+Definition k_nis := block_node_inner_size kR k_inp.
+Definition k_P : Block.Params XQ := block_params kR k_inp (qz 212).
+Definition k_out (w h cw ch : Z) : ChildOut XQ := mkOut (mkSize (qz w) (qz h)) (mkSize (qz cw) (qz ch)) ms_ZERO ms_ZERO false.
+Definition k_xs : list (Item XQ * ChildOut XQ) :=
+  [(generate_item kA k_nis 0, k_out 200 24 34 14); (generate_item kE k_nis 1, k_out 10 10 10 10); (generate_item kF k_nis 2, k_out 100 12 32 12)].
+Definition k_xs' : list (Item XQ * ChildOut XQ) :=
+  [(generate_item kA k_nis 0, k_out 200 24 999 777); (generate_item kE2 k_nis 1, k_out 39 50 0 0); (generate_item kF k_nis 2, k_out 100 12 32 12)].
+Example C06_block_inflow_concrete_example :
+  Forall2 xrel k_xs k_xs' /\ k_xs <> k_xs' /\ in_flow_only k_xs <> k_xs /\ length (in_flow_only k_xs) = 2%nat /\
+  map (fun r => (ir_inflow r, ir_x r, ir_y r, ir_static_x r, ir_static_y r)) (io_results (block_inflow k_P k_xs)) =
+    [(true, qz 6, qz 10, qz 6, qz 6); (false, qz 0, qz 0, qz 6, qz 34); (true, qz 6, qz 34, qz 6, qz 34)] /\
+  map (fun r => (ir_inflow r, ir_x r, ir_y r, ir_static_x r, ir_static_y r)) (io_results (block_inflow k_P k_xs')) =
+    [(true, qz 6, qz 10, qz 6, qz 6); (false, qz 0, qz 0, qz 6, qz 34); (true, qz 6, qz 34, qz 6, qz 34)] /\
+  io_height (block_inflow k_P k_xs) = qz 52 /\ io_height (block_inflow k_P k_xs') = qz 52 /\
+  io_content_size (block_inflow k_P k_xs) <> io_content_size (block_inflow k_P k_xs').
+Proof.
+  split.
+  { unfold k_xs, k_xs'. constructor; [right; vm_compute; repeat split|]. constructor; [left; vm_compute; split; reflexivity|].
+    constructor; [right; vm_compute; repeat split|constructor]. }
+  split; [vm_compute; discriminate|]. split; [vm_compute; discriminate|].
+  vm_compute. repeat split; try reflexivity. discriminate.
+Qed.
+
+(* C06_block_engine_instance_partial, computed over XQ: an absolute CONTAINER with two children against a bare absolute leaf,
+   nested in a block container: the fresh trees are asim, both evaluations succeed, the results are asim, the root outputs
+   coincide up to content size (212 x 92; content 206 x 108 vs 206 x 86), and all in-flow boxes coincide *)
+Definition csel (s : BStyle XQ) : bool :=
+  match Block.r_left (st_padding s) with Len (Fin q) => Qeq_bool q 5 || Qeq_bool q 3 | _ => false end.
+Definition cleaf (s : BStyle XQ) (i : BIn XQ) : ChildOut XQ := leaf_out s (Scale.measure_fixed (qz 30) (qz 10)) i.
+Notation c_algo := (fun s st i => if csel s then block_alg block_pre abs_child_simple s st i
+                                  else Engine.Ret (BIn XQ) (ChildOut XQ) (BLayout XQ) (cleaf s i)).
+Notation c_memo := (memo (BStyle XQ) (BIn XQ) (ChildOut XQ) (BLayout XQ) bi_mode bin_eqb bs_is_none hidden_child_out zero_blay c_algo).
+Notation c_fresh := (fresh (BStyle XQ) (BIn XQ) (ChildOut XQ) (BLayout XQ) zero_blay).
+Definition cA := fst (sstyle _ ex_A). Definition cC := fst (sstyle _ ex_C). Definition cG := fst (sstyle _ ex_G).
+Definition cB := fst (sstyle _ ex_B). Definition cE := fst (sstyle _ ex_E). Definition cF := fst (sstyle _ ex_F).
+Definition cR := fst (sstyle _ ex_spec).
+Definition cAbs : BStyle XQ := ex_style Block.DBlock false Block.PAbsolute (Block.mkSize (len 40) Block.Auto) auto2 auto2 3 2 9.
+Definition CL (s : BStyle XQ) := SNode (BStyle XQ) s [].
+Definition ck : sk (BStyle XQ) := SNode _ cR [CL cA; SNode _ cB [CL cC; SNode _ cAbs [CL cG; CL cA]; CL cG]; CL cF].
+Definition ck' : sk (BStyle XQ) := SNode _ cR [CL cA; SNode _ cB [CL cC; CL cE; CL cG]; CL cF].
+Definition cx (t : Engine.tree (BStyle XQ) (BIn XQ) (ChildOut XQ) (BLayout XQ)) :=
+  map (fun l => (bl_x l, bl_y l, s_w (bl_size l), s_h (bl_size l))) (lays (BStyle XQ) (BIn XQ) (ChildOut XQ) (BLayout XQ) t).
+Example C06_block_engine_example :
+  asim (BStyle XQ) (BIn XQ) (ChildOut XQ) (BLayout XQ) bs_visible_absolute out_eq lay_eq (c_fresh ck) (c_fresh ck') /\
+  exists o t o' t',
+    c_memo 6 (c_fresh ck) ex_input = Some (o, t) /\ c_memo 6 (c_fresh ck') ex_input = Some (o', t') /\
+    asim (BStyle XQ) (BIn XQ) (ChildOut XQ) (BLayout XQ) bs_visible_absolute out_eq lay_eq t t' /\ out_eq o o' /\
+    bsz_eqb (co_size o) (Block.mkSize (qz 212) (qz 92)) = true /\
+    bsz_eqb (co_content_size o) (Block.mkSize (qz 206) (qz 108)) = true /\
+    bsz_eqb (co_content_size o') (Block.mkSize (qz 206) (qz 86)) = true /\
+    list_eqb box_eqb (cx t) [box 0 0 0 0; box 6 10 200 24; box 6 40 200 34; box 4 4 52 12; box 4 16 46 52; box 5 5 36 14; box 5 23 36 24;
+                             box 4 16 192 14; box 6 74 100 12] = true /\
+    list_eqb box_eqb (cx t') [box 0 0 0 0; box 6 10 200 24; box 6 40 200 34; box 4 4 52 12; box 4 16 30 10;
+                              box 4 16 192 14; box 6 74 100 12] = true.
+Proof.
+  assert (Hs : asim (BStyle XQ) (BIn XQ) (ChildOut XQ) (BLayout XQ) bs_visible_absolute out_eq lay_eq (c_fresh ck) (c_fresh ck')).
+  { pose proof (asim_refl (BStyle XQ) (BIn XQ) (ChildOut XQ) (BLayout XQ) bs_visible_absolute out_eq lay_eq out_eq_refl lay_eq_refl) as R.
+    pose proof (crel_refl (BIn XQ) (ChildOut XQ) out_eq out_eq_refl) as C.
+    cbn [ck ck' Engine.fresh map CL].
+    apply asim_node; [apply C|apply lay_eq_refl|]. constructor; [apply R|]. constructor; [|constructor; [apply R|constructor]].
+    apply asim_node; [apply C|apply lay_eq_refl|]. constructor; [apply R|]. constructor; [|constructor; [apply R|constructor]].
+    apply asim_abs; vm_compute; reflexivity. }
+  split; [exact Hs|].
+  destruct (c_memo 6 (c_fresh ck) ex_input) as [[o t]|] eqn:E; [|vm_compute in E; discriminate].
+  destruct (c_memo 6 (c_fresh ck') ex_input) as [[o' t']|] eqn:E'; [|vm_compute in E'; discriminate].
+  exists o, t, o', t'. split; [reflexivity|]. split; [reflexivity|].
+  destruct (C06_block_engine_instance_partial XQ _ block_pre abs_child_simple csel cleaf bi_mode bin_eqb bs_is_none hidden_child_out
+              zero_blay (abs_child_simple_local (T := XQ)) 6 6 _ _ ex_input o t o' t' Hs E E') as [Ht Ho].
+  split; [exact Ht|]. split; [apply Ho; vm_compute; reflexivity|].
+  assert (X : match c_memo 6 (c_fresh ck) ex_input, c_memo 6 (c_fresh ck') ex_input with
+              | Some (o, t), Some (o', t') =>
+                  bsz_eqb (co_size o) (Block.mkSize (qz 212) (qz 92)) &&
+                  bsz_eqb (co_content_size o) (Block.mkSize (qz 206) (qz 108)) &&
+                  bsz_eqb (co_content_size o') (Block.mkSize (qz 206) (qz 86)) &&
+                  list_eqb box_eqb (cx t) [box 0 0 0 0; box 6 10 200 24; box 6 40 200 34; box 4 4 52 12; box 4 16 46 52; box 5 5 36 14; box 5 23 36 24;
+                             box 4 16 192 14; box 6 74 100 12] &&
+                  list_eqb box_eqb (cx t') [box 0 0 0 0; box 6 10 200 24; box 6 40 200 34; box 4 4 52 12; box 4 16 30 10;
+                              box 4 16 192 14; box 6 74 100 12]
+              | _, _ => false end = true) by (vm_compute; reflexivity).
+  rewrite E, E' in X. do 4 (apply andb_true_iff in X; destruct X as [X ?]). repeat split; assumption.
 (* ---------------------------------------------------------------------------------------------- the flex algorithm *)
 From TV Require Import Model.Common Model.Leaf Model.FlexAlgBase Model.FlexAlg Model.EngineLift Model.BlockFlexEngine.
 From TV Require Import Proofs.FlexAlgBlind Proofs.BlockFlexEngine.
@@ -377,8 +581,8 @@ Print Assumptions C06_grid_never_placed.
 Print Assumptions C06_grid_estimate_absolute_refuted.
 Print Assumptions C06_grid_estimate_absolute_refuted_sibling.
 Print Assumptions C06_grid_known_class.
-Print Assumptions C06_abs_blind_engine.
-Print Assumptions C06_abs_blind_layouts.
+Print Assumptions C06_abs_blind_engine_partial.
+Print Assumptions C06_abs_blind_layouts_partial.
 Print Assumptions C06_block_inflow_abs_blind.
 Print Assumptions C06_block_inflow_delete_absolute.
 Print Assumptions C06_flex_items_ignore_absolute.
@@ -386,9 +590,10 @@ Print Assumptions C06_grid_items_ignore_absolute.
 Print Assumptions C06_block_items_absolute_flagged.
 Print Assumptions C06_block_source_predicates.
 Print Assumptions C06_block_algorithm_abs_blind.
-Print Assumptions C06_block_engine_instance.
+Print Assumptions C06_block_engine_instance_partial.
 Print Assumptions C06_block_resumption_runs_kernel.
 Print Assumptions C06_block_content_width_ignores_absolute.
 Print Assumptions C06_block_resumption_query_inputs.
 Print Assumptions C06_flex_algorithm_abs_blind.
 Print Assumptions C06_blockflex_engine_instance.
+Print Assumptions C06_bl_algorithm_abs_blind.
